@@ -13,12 +13,16 @@ import (
 	"net/http"
 	"net/url"
 	"strings"
+	"time"
+
+	"github.com/go-jose/go-jose/v3"
 
 	"github.com/ory/fosite"
 	"github.com/ory/fosite/compose"
 	"github.com/ory/fosite/handler/openid"
 	"github.com/ory/fosite/zz_verif_h/world"
 	"github.com/ory/fosite/zz_verif_h/zz"
+	"github.com/ory/fosite/zz_verif_h/zzjwt"
 )
 
 const (
@@ -241,7 +245,7 @@ func writeError(w *world.World, ar fosite.AuthorizeRequester, err error, q reque
 	o := decode(rw)
 	zz.Observe("error", world.ErrName(err))
 	if !o.redirected && !o.posted {
-		zz.Cover("error-direct", true)
+		zz.Observe("error-direct", true)
 		return
 	}
 	zz.Cover("error-redirected", true)
@@ -270,7 +274,13 @@ func drive(w *world.World, q request, regs map[string]registration, grantOpenID 
 			ar.GrantScope(s)
 		}
 	}
-	resp, err := w.Provider.NewAuthorizeResponse(w.Ctx, ar, world.NewOIDCSession("peter"))
+	sess := world.NewOIDCSession("peter")
+	if q.prompt != "" || q.maxAge != "" {
+		// the login happened "now": prompt/max_age rules are then decidable by the handlers
+		sess.Claims.AuthTime = time.Now().UTC()
+		sess.Claims.RequestedAt = sess.Claims.AuthTime
+	}
+	resp, err := w.Provider.NewAuthorizeResponse(w.Ctx, ar, sess)
 	if err != nil {
 		zz.Cover("response-refused", true)
 		writeError(w, ar, err, q)
@@ -346,7 +356,7 @@ var (
 )
 
 func symResponseType() string {
-	n, k := 2, 4
+	n, k := 2, 5
 	if zz.Thorough() {
 		n, k = 3, 5
 	}
@@ -414,9 +424,14 @@ func ZZ_C13_flows() {
 	r.hasModes, r.modes = true, modeRegs[4]
 	r.grants = grantLists[zz.Choice("grants", len(grantLists))]
 	nrt := 7
+	pm := 0
 	if zz.Thorough() {
 		nrt = len(flowTypes)
-		r.public = zz.Choice("public", 2) == 1
+		// prompt / max_age combinations; the public flag only matters for prompt=none
+		pm = zz.Choice("prompt_maxage", 4)
+		if pm == 1 {
+			r.public = zz.Choice("public", 2) == 1
+		}
 	}
 	w := newWorld(r)
 	q := request{clientID: "c1", redirect: redirectURI, scope: "openid photos"}
@@ -424,10 +439,8 @@ func ZZ_C13_flows() {
 	q.mode = modeList[zz.Choice("mode", 4)]
 	q.state = zz.String("state", 10)
 	q.nonce = zz.String("nonce", 10)
-	if zz.Thorough() {
-		q.prompt = []string{"", "none", "login"}[zz.Choice("prompt", 3)]
-		q.maxAge = []string{"", "0", "60"}[zz.Choice("max_age", 3)]
-	}
+	q.prompt = []string{"", "none", "login", ""}[pm]
+	q.maxAge = []string{"", "", "60", "60"}[pm]
 	drive(w, q, regsOf(r), zz.Choice("grant_openid", 2) == 1)
 }
 
@@ -437,7 +450,7 @@ func ZZ_C13_flows() {
 func ZZ_C13_request_object() {
 	r := defaultRegistration()
 	kind := zz.Choice("client", 3)
-	registered := zz.StringEx("registered_uri", 12, " ")
+	registered := zz.StringEx("registered_uri", 12, " :/")
 	switch kind {
 	case 1:
 		r.oidc, r.requestURIs = true, []string{registered}
@@ -446,15 +459,15 @@ func ZZ_C13_request_object() {
 	}
 	w := newWorld(r)
 	q := request{clientID: "c1", responseType: "code", state: "state-0123456789", scope: "openid photos", redirect: redirectURI}
-	ru := zz.StringEx("request_uri", 12, " ")
+	ru := zz.StringEx("request_uri", 12, " :/")
 	ro := ""
 	if zz.Choice("with_request", 2) == 1 {
 		ro = "e30.e30." // some request object text; never parsed on the paths explored here
 	}
 	zz.Assume(ru != "" || ro != "")
-	// the fetch of a registered request_uri is the environment's business (HTTP): not explored
-	zz.Assume(ru == "" || ru != registered || kind != 2 || ro != "")
-	// a by-value request object for a client with keys is parsed by go-jose: thorough tier only
+	// (the fetch of a registered request_uri is the environment's business: in the model, as in the sandbox
+	// of the native replays, there is no network and every fetch fails)
+	// a by-value request object for a client with keys is parsed by go-jose: ZZ_C13_request_object_signed_T
 	zz.Assume(!(ro != "" && ru == "" && kind == 2))
 	q.extra = url.Values{}
 	if ru != "" {
@@ -471,9 +484,64 @@ func ZZ_C13_request_object() {
 	zz.Cover("not-oidc-client-refused", kind == 0 && (name == "request_uri_not_supported" || name == "request_not_supported"))
 	zz.Cover("no-keys-refused", kind == 1 && name == "invalid_request")
 	zz.Cover("unregistered-request-uri-refused", kind == 2 && name == "invalid_request_uri")
-	if kind == 2 && ru != "" && ro == "" {
+	if kind == 2 && ru != "" && ro == "" && ru == registered {
+		zz.Cover("registered-request-uri-fetched", true)
+	} else if kind == 2 && ru != "" && ro == "" {
 		zz.Assert(name == "invalid_request_uri", "request_uri not pre-registered => refused")
+		// ... and refused by the pre-registration rule itself, i.e. before anything is fetched
+		hint := fosite.ErrorToRFC6749Error(err).HintField
+		zz.Assert(strings.HasSuffix(hint, "is not whitelisted by the OAuth 2.0 Client."), "request_uri not pre-registered => never fetched")
 	}
+}
+
+// ZZ_C13_request_object_signed_T (thorough tier; uses agentF2's go-jose model through zzjwt): parameters taken
+// from a by-value request object are honoured only if it is signed with a key registered for the client
+// and with the registered algorithm; unsigned (alg none) only where the registration permits (an empty
+// request_object_signing_alg permits any algorithm including none, as the code's quoted OpenID text says).
+func ZZ_C13_request_object_signed_T() {
+	regAlg := []string{"", "RS256", "ES256", "none"}[zz.Choice("registered_alg", 4)]
+	regPriv, regPub := zzjwt.GenKey(zzjwt.RSA)
+	othPriv, _ := zzjwt.GenKey(zzjwt.RSA)
+	r := defaultRegistration()
+	w := newWorld(r)
+	c := w.Store.Clients["c1"].(*fosite.DefaultClient)
+	w.Store.Clients["c1"] = &fosite.DefaultOpenIDConnectClient{
+		DefaultClient:                 c,
+		JSONWebKeys:                   &jose.JSONWebKeySet{Keys: []jose.JSONWebKey{{Key: regPub, KeyID: "k1", Algorithm: "RS256", Use: "sig"}}},
+		RequestObjectSigningAlgorithm: regAlg,
+	}
+	alg := []string{"RS256", "none", "HS256", "PS256"}[zz.Choice("alg", 4)]
+	var key interface{}
+	signer := zz.Choice("signer", 3) // 0 registered key, 1 another key, 2 no key
+	switch signer {
+	case 0:
+		key = regPriv
+	case 1:
+		key = othPriv
+	}
+	kid := []string{"k1", "", "other"}[zz.Choice("kid", 3)]
+	const inner = "state-from-the-request-object"
+	tok := zzjwt.Sign(zzjwt.Spec{Alg: alg, Kid: kid, Key: key, Claims: map[string]interface{}{
+		"state": inner, "response_type": "code", "client_id": "c1", "redirect_uri": redirectURI, "scope": "openid photos",
+	}})
+	q := request{clientID: "c1", responseType: "code", state: "outer-state-0123456789", scope: "openid photos", redirect: redirectURI,
+		extra: url.Values{"request": {tok}}}
+	ar, err := w.Provider.NewAuthorizeRequest(w.Ctx, world.Get(q.form()))
+	zz.Observe("err", world.ErrName(err))
+	if err != nil {
+		zz.Cover("refused", true)
+		return
+	}
+	honoured := ar.GetState() == inner
+	zz.Observe("honoured", honoured)
+	zz.Assert(honoured, "an accepted request object is applied")
+	algOK := regAlg == "" || regAlg == alg
+	unsigned := alg == "none"
+	signedByRegistered := signer == 0 && (alg == "RS256" || alg == "PS256")
+	zz.Assert(algOK, "request object honoured => its algorithm is the registered one (or none is registered)")
+	zz.Assert(unsigned || signedByRegistered, "request object honoured => signed with a key registered for the client (or unsigned where permitted)")
+	zz.Cover("honoured-signed", !unsigned)
+	zz.Cover("honoured-unsigned", unsigned)
 }
 
 var _ = context.Background
